@@ -11,7 +11,12 @@ import (
 func (fc *fnCtx) callArgs(st *State, c *ssa.CallCommon) []Val {
 	var args []Val
 	for _, a := range c.Args {
-		args = append(args, fc.val(st, a))
+		v := fc.val(st, a)
+		if v.S == SAddr && v.T != "" {
+			// an address that escapes into a call is an object reference for the callee
+			v = Val{T: v.T, S: SU, GT: v.GT, A: v.A}
+		}
+		args = append(args, v)
 	}
 	return args
 }
